@@ -202,10 +202,19 @@ impl Tier {
 }
 
 static ANNOUNCE: std::sync::atomic::AtomicBool = std::sync::atomic::AtomicBool::new(false);
+/// Number of executions started by this worker; a heartbeat thread reports it once per second so
+/// that the parent can tell a hung execution (counter frozen) from a long job.
+static PROGRESS: std::sync::atomic::AtomicU64 = std::sync::atomic::AtomicU64::new(0);
+
+/// Call from loops that run real code without going through `announce` (pure evaluations).
+pub fn progress() {
+    PROGRESS.fetch_add(1, std::sync::atomic::Ordering::Relaxed);
+}
 
 /// In crash-finding mode every execution is announced on stdout *before* it runs, so that the
 /// parent can attribute an abort (stack overflow, allocation failure) to one (config, history).
 pub fn announce(cfg: &str, hist: &[crate::sim::Ev]) {
+    PROGRESS.fetch_add(1, std::sync::atomic::Ordering::Relaxed);
     if ANNOUNCE.load(std::sync::atomic::Ordering::Relaxed) {
         let stdout = std::io::stdout();
         let mut l = stdout.lock();
@@ -214,6 +223,7 @@ pub fn announce(cfg: &str, hist: &[crate::sim::Ev]) {
     }
 }
 pub fn announce_value(v: &Value) {
+    PROGRESS.fetch_add(1, std::sync::atomic::Ordering::Relaxed);
     if ANNOUNCE.load(std::sync::atomic::Ordering::Relaxed) {
         let stdout = std::io::stdout();
         let mut l = stdout.lock();
@@ -245,6 +255,15 @@ pub fn worker_main(p: &PropDef, tier: Tier, shard: usize, nshards: usize, deadli
         emit("KMC-DONE false".to_string());
         return;
     }
+    std::thread::spawn(|| loop {
+        std::thread::sleep(std::time::Duration::from_millis(1000));
+        let stdout = std::io::stdout();
+        let mut l = stdout.lock();
+        let _ = writeln!(l, "KMC-HB {}", PROGRESS.load(std::sync::atomic::Ordering::Relaxed));
+        let _ = l.flush();
+    });
+    let known = load_known();
+    let mut known_seen: BTreeMap<String, u32> = BTreeMap::new();
     let mut idx = shard;
     while idx < n {
         if (idx as i64) <= start_after {
@@ -263,12 +282,114 @@ pub fn worker_main(p: &PropDef, tier: Tier, shard: usize, nshards: usize, deadli
             eprintln!("job {idx} took {:.2}s", t0.elapsed().as_secs_f64());
         }
         st.jobs_done = 1;
-        nviol += st.violations.len();
+        // Violations that match a listed known finding do not count towards the per-worker cap (a
+        // thorough tier hits the same finding thousands of times) and only the first few per entry
+        // are shipped; everything else is shipped and counted.
+        {
+            let mut kept = vec![];
+            for v in std::mem::take(&mut st.violations) {
+                match known_match(&known, &v) {
+                    Some(k) => {
+                        let ks = k.get("signature").and_then(|x| x.as_str()).unwrap_or("").to_string();
+                        let c = known_seen.entry(ks).or_insert(0u32);
+                        *c += 1;
+                        if *c <= 3 {
+                            kept.push(v);
+                        } else {
+                            *st.counters.entry("known_finding_hits_not_shipped".into()).or_insert(0) += 1;
+                        }
+                    }
+                    None => {
+                        nviol += 1;
+                        kept.push(v);
+                    }
+                }
+            }
+            st.violations = kept;
+        }
         *st.levels_done.entry((p.job_level)(tier, idx)).or_insert(0) += 1;
         emit(format!("KMC-PART {}", serde_json::to_string(&st.to_json()).unwrap()));
         idx += nshards;
     }
     emit(format!("KMC-DONE {}", capped));
+}
+
+
+/// Outcome of supervising one child process whose stdout is read line by line.
+struct Supervised {
+    lines: Vec<String>,
+    status: Option<std::process::ExitStatus>,
+    /// killed because it made no progress for `stall_s` seconds
+    stalled: bool,
+    stderr: String,
+}
+
+/// Runs the child to completion, collecting stdout lines (heartbeats dropped). "Progress" is any
+/// line other than a heartbeat, or a heartbeat whose counter changed. A child without progress for
+/// `stall_s` seconds is killed and reported as stalled (a hung execution).
+fn supervise(mut c: std::process::Child, stall_s: f64) -> Supervised {
+    use std::io::BufRead;
+    let so = c.stdout.take();
+    let se = c.stderr.take();
+    let (ltx, lrx) = std::sync::mpsc::channel::<String>();
+    let rd = std::thread::spawn(move || {
+        if let Some(so) = so {
+            let br = std::io::BufReader::new(so);
+            for l in br.lines() {
+                match l {
+                    Ok(l) => {
+                        if ltx.send(l).is_err() {
+                            break;
+                        }
+                    }
+                    Err(_) => break,
+                }
+            }
+        }
+    });
+    let erd = std::thread::spawn(move || {
+        let mut s = String::new();
+        if let Some(mut se) = se {
+            let _ = se.read_to_string(&mut s);
+        }
+        s
+    });
+    let mut lines = vec![];
+    let mut last_progress = Instant::now();
+    let mut last_hb: Option<String> = None;
+    let mut stalled = false;
+    loop {
+        match lrx.recv_timeout(std::time::Duration::from_millis(500)) {
+            Ok(l) => {
+                if let Some(hb) = l.strip_prefix("KMC-HB ") {
+                    if last_hb.as_deref() != Some(hb) {
+                        last_progress = Instant::now();
+                        last_hb = Some(hb.to_string());
+                    }
+                } else {
+                    last_progress = Instant::now();
+                    lines.push(l);
+                }
+            }
+            Err(std::sync::mpsc::RecvTimeoutError::Timeout) => {}
+            Err(std::sync::mpsc::RecvTimeoutError::Disconnected) => break,
+        }
+        if last_progress.elapsed().as_secs_f64() > stall_s {
+            let _ = c.kill();
+            stalled = true;
+            break;
+        }
+    }
+    let status = c.wait().ok();
+    let _ = rd.join();
+    let stderr = erd.join().unwrap_or_default();
+    // drain what the reader had already queued
+    while let Ok(l) = lrx.try_recv() {
+        if !l.starts_with("KMC-HB ") {
+            lines.push(l);
+        }
+    }
+    Supervised { lines, status, stalled, stderr }
 }
 
 fn load_known() -> Vec<Value> {
@@ -359,6 +480,12 @@ pub fn parent_main(p: &PropDef, tier: Tier, seed: u64) -> i32 {
             .spawn()
             .expect("spawn worker")
     };
+    // no progress (executions started) for this long = a hung execution; the worker is killed and the job
+    // is re-run alone to attribute the hang to one execution
+    let stall_s: f64 = std::env::var("KMC_STALL_S").ok().and_then(|s| s.parse().ok()).unwrap_or(match tier {
+        Tier::Quick => 60.0,
+        Tier::Thorough => 180.0,
+    });
     let fatal_jobs = std::sync::Mutex::new(Vec::<usize>::new());
     let results = std::sync::Mutex::new(Vec::<String>::new());
     let fails = std::sync::Mutex::new(Vec::<String>::new());
@@ -371,14 +498,12 @@ pub fn parent_main(p: &PropDef, tier: Tier, seed: u64) -> i32 {
                 let mut restarts = 0;
                 loop {
                     let remaining = deadline_s - start.elapsed().as_secs_f64();
-                    let mut c = spawn(shard, start_after, remaining.max(1.0));
-                    let mut out = String::new();
-                    if let Some(mut so) = c.stdout.take() {
-                        let _ = so.read_to_string(&mut out);
-                    }
-                    let status = c.wait().expect("wait worker");
+                    let c = spawn(shard, start_after, remaining.max(1.0));
+                    let sup = supervise(c, stall_s);
+                    let status = sup.status;
+                    let out = sup.lines.join("\n");
                     if std::env::var("KMC_TRACE").is_ok() {
-                        eprintln!("[{:.1}s] shard {shard} worker exited {status:?}", start.elapsed().as_secs_f64());
+                        eprintln!("[{:.1}s] shard {shard} worker exited {status:?} stalled={}", start.elapsed().as_secs_f64(), sup.stalled);
                     }
                     let mut last_job: Option<usize> = None;
                     let mut done = false;
@@ -433,36 +558,42 @@ pub fn parent_main(p: &PropDef, tier: Tier, seed: u64) -> i32 {
         if std::env::var("KMC_TRACE").is_ok() {
             eprintln!("[{:.1}s] crashfind job {j}", start.elapsed().as_secs_f64());
         }
-        let o = Command::new(&exe)
+        let child = Command::new(&exe)
             .args(["worker", p.id, tier.name(), "0", "1", "600", "-1", &j.to_string()])
             .stdin(Stdio::null())
+            .stdout(Stdio::piped())
             .stderr(Stdio::piped())
-            .output();
-        match o {
-            Ok(o) => {
-                let so = String::from_utf8_lossy(&o.stdout);
-                let se = String::from_utf8_lossy(&o.stderr);
-                let done = so.lines().any(|l| l.starts_with("KMC-DONE"));
-                let last = so.lines().rev().find(|l| l.starts_with("KMC-EXEC "));
+            .spawn();
+        match child {
+            Ok(child) => {
+                // in this mode every execution announces itself, so silence = one execution hanging
+                let sup = supervise(child, 45.0);
+                let se = sup.stderr.clone();
+                let done = sup.lines.iter().any(|l| l.starts_with("KMC-DONE"));
+                let last = sup.lines.iter().rev().find(|l| l.starts_with("KMC-EXEC "));
                 if done {
                     machinery_fail.push(format!("job {j} killed its worker but ran to completion alone (not reproducible)"));
                 } else if let Some(l) = last {
                     let d: Value = serde_json::from_str(&l["KMC-EXEC ".len()..]).unwrap_or(json!({}));
-                    let why = if se.contains("overflowed its stack") { "stack overflow" } else if se.contains("memory allocation") { "allocation failure" } else { "abort" };
+                    let why = if sup.stalled { "hang" } else if se.contains("overflowed its stack") { "stack overflow" } else if se.contains("memory allocation") { "allocation failure" } else { "abort" };
                     let cfg = d.get("cfg").and_then(|x| x.as_str()).unwrap_or("");
                     let mut detail = d.clone();
-                    detail.as_object_mut().map(|m| { m.insert("kind".into(), json!("abort")); });
+                    detail.as_object_mut().map(|m| { m.insert("kind".into(), json!(if sup.stalled { "hang" } else { "abort" })); });
                     total.violations.push(Violation {
                         property: p.id.to_string(),
-                        signature: format!("abort::{}::{:016x}", why, crate::sim::hash_str(cfg)),
-                        what: format!("process death ({why}, status {:?}) in job {j}; last announced execution: {}", o.status, d.get("history").and_then(|x| x.as_str()).unwrap_or("?")),
+                        signature: format!("{}::{}::{:016x}", if sup.stalled { "hang" } else { "abort" }, why, crate::sim::hash_str(cfg)),
+                        what: if sup.stalled {
+                            format!("an execution did not return within 45 s (job {j}); last announced execution: {}", d.get("history").and_then(|x| x.as_str()).unwrap_or("?"))
+                        } else {
+                            format!("process death ({why}, status {:?}) in job {j}; last announced execution: {}", sup.status, d.get("history").and_then(|x| x.as_str()).unwrap_or("?"))
+                        },
                         detail,
                     });
                     // the fatal job counts as done for level accounting: it produced a verdict
                     total.jobs_done += 1;
                     *total.levels_done.entry((p.job_level)(tier, j)).or_insert(0) += 1;
                 } else {
-                    machinery_fail.push(format!("job {j} died without announcing an execution (status {:?})", o.status));
+                    machinery_fail.push(format!("job {j} died without announcing an execution (status {:?}, stalled {})", sup.status, sup.stalled));
                 }
             }
             Err(e) => machinery_fail.push(format!("could not rerun fatal job {j}: {e}")),
@@ -507,18 +638,22 @@ pub fn parent_main(p: &PropDef, tier: Tier, seed: u64) -> i32 {
         if reported < 3 {
             let mut ok = 0;
             for _ in 0..2 {
-                let o = Command::new(&exe).args(["replay", &path]).stdin(Stdio::null()).stderr(Stdio::null()).output();
-                if let Ok(o) = o {
-                    let so = String::from_utf8_lossy(&o.stdout);
-                    if so.lines().any(|l| {
+                let child = Command::new(&exe).args(["replay", &path]).stdin(Stdio::null()).stdout(Stdio::piped()).stderr(Stdio::null()).spawn();
+                if let Ok(child) = child {
+                    let sup = supervise(child, 60.0);
+                    let reproduced = sup.lines.iter().any(|l| {
                         l.strip_prefix("REPRODUCED ")
                             .and_then(|r| r.split_once("signature="))
                             .map(|(_, sig)| v.signature == sig || v.signature.ends_with(&format!("::{sig}")))
                             .unwrap_or(false)
-                    }) {
+                    });
+                    let died_by_signal = sup.status.map(|s| !s.success() && s.code().is_none()).unwrap_or(false);
+                    if reproduced {
                         ok += 1;
-                    } else if v.signature.starts_with("abort::") && !o.status.success() && o.status.code().is_none() {
+                    } else if v.signature.starts_with("abort::") && died_by_signal && !sup.stalled {
                         // died by signal again
+                        ok += 1;
+                    } else if v.signature.starts_with("hang::") && (sup.stalled || sup.lines.iter().any(|l| l.starts_with("REPRODUCED-HANG"))) {
                         ok += 1;
                     }
                 }
@@ -646,6 +781,16 @@ pub fn replay_main(props: &[PropDef], path: &str) -> i32 {
         println!("unknown property {}", viol.property);
         return 2;
     };
+    if viol.detail.get("kind").and_then(|x| x.as_str()) == Some("hang") {
+        // the execution is expected not to return: report and exit after 20 s
+        let (prop, sig) = (viol.property.clone(), viol.signature.clone());
+        std::thread::spawn(move || {
+            std::thread::sleep(std::time::Duration::from_secs(20));
+            println!("REPRODUCED-HANG property={prop} signature={sig}");
+            println!("  what: the execution is still running after 20 s");
+            std::process::exit(1);
+        });
+    }
     let got = (p.replay)(&viol.detail);
     if got.is_empty() {
         println!("NOT-REPRODUCED property={} signature={}", viol.property, viol.signature);
